@@ -14,7 +14,7 @@ RULE = ("script: a harness thread on loopback writes a known pseudo-random strea
         "prefix sent (no loss, duplication or reordering), a read during a pause longer than the timeout raises TcpTimeoutException not earlier than 0.8 x timeout and later reads "
         "continue in order; bytes written arrive at the peer intact; close() twice is harmless; connect -> close -> connect works. session: a whole device session (connect, shell, "
         "push, pull, list, stat) over loopback against the simulator gives the results the in-memory transport gives. Wall-clock is used only as a lower bound with slack; an "
-        "upper-bound overrun is inconclusive. non-trivial = at least one timeout or fragment boundary exercised; distinct = distinct scripts")
+        "upper-bound overrun is inconclusive. The timeout given to connect() may differ from the one given to the reads (0.15 s vs None with peer pauses of 2.5 x that), and the peer may have written more than the client reads before it closes (the next connection must start clean). non-trivial = at least one timeout or fragment boundary exercised; distinct = distinct scripts")
 ASSUMPTIONS = ["the kernel's loopback TCP delivers what was written", "timing verdicts are one-sided (not before 0.8 x timeout)"]
 SHARDS = {"quick": 8, "thorough": 16}
 TIME_BUDGET = {"quick": 300, "thorough": 1800}
